@@ -8,7 +8,9 @@
 #include <etl/_cmath/isinf.hpp>
 #include <etl/_cmath/isnan.hpp>
 #include <etl/_cmath/sqrt.hpp>
+#include <etl/_concepts/same_as.hpp>
 #include <etl/_limits/numeric_limits.hpp>
+#include <etl/_type_traits/is_constant_evaluated.hpp>
 
 namespace etl {
 
@@ -18,6 +20,18 @@ inline constexpr struct hypot {
     template <typename Float>
     [[nodiscard]] constexpr auto operator()(Float x, Float y) const noexcept -> Float
     {
+        if (not is_constant_evaluated()) {
+#if __has_builtin(__builtin_hypotf)
+            if constexpr (etl::same_as<Float, float>) {
+                return __builtin_hypotf(x, y);
+            }
+#endif
+#if __has_builtin(__builtin_hypot)
+            if constexpr (etl::same_as<Float, double>) {
+                return __builtin_hypot(x, y);
+            }
+#endif
+        }
         if (etl::isinf(x) or etl::isinf(y)) {
             return etl::numeric_limits<Float>::infinity();
         }
